@@ -112,7 +112,7 @@ CHECKS = {
  "C08": {
   "level": "exploration",
   "technique": "model-based property testing over call histories: shared target / shared prepared database vs fresh single-query grounding",
-  "text": "Operation histories (ground query, ground evidence +/-, engine.query, fresh target) over one prepared ClauseDB and one shared target; after every step each query's probabilities must equal those of grounding it alone with the same evidence.",
+  "text": "Operation histories (ground query, ground evidence +/-, engine.query, fresh target) over one prepared ClauseDB and one shared target; after every step each query's probabilities must equal those of grounding it alone with the same evidence. Steps may use a new engine instance on the same database and target; sub-check collect-wrappers grounds two all/3 | findall/3 wrapper clauses through different engine instances.",
   "note": "Differential between two uses of the same engine code; probability mode.",
  },
  "C14": {
